@@ -1,6 +1,7 @@
 (* Corr/ExecCheckers.v — executable checkers evaluated on the IMPLEMENTATION's observed logs
    (oldest event first), one per property; those marked "proved" hold on every model log by a theorem. *)
 From FS Require Export Corr.ExecCorr.
+From FS Require Import Spec.Verdict.
 From FS Require Import Proofs.ExecProofs Proofs.ExecStats.
 
 Definition kind_is (k : evk) (e : event) : bool := evk_code (e_kind e) =? evk_code k.
@@ -93,6 +94,11 @@ Fixpoint breaker_events_match (mask : Z) (pending : option (nat * Z)) (l : list 
            end
   end.
 
+(* the verdict automaton of Spec/Verdict.v accepts the log at every stack position *)
+Definition verdicts_ok (q : request) (o : xobs) : bool :=
+  forallb (fun p => match vrun p (map (fun e => (e_kind e, e_pos e)) (x_events o)) with Some _ => true | None => false end)
+          (seq 0 (length (q_stack q))).
+
 Definition c16_ok (q : request) (o : xobs) : bool :=
   let evs := x_events o in
   let '(ls, lf, ld) := q_lsn q in
@@ -104,7 +110,8 @@ Definition c16_ok (q : request) (o : xobs) : bool :=
                        then outcome_eqb (e_out e) (if q_run q then (fst (e_out e), snd (x_out o)) else x_out o) else true) evs
   && forallb (fun p => retry_pairs_ok p false evs) (seq 0 (length (q_stack q)))
   && (count_kind KFnStart evs =? count_kind KFnEnd evs)
-  && breaker_events_match (q_blsn q) None evs.
+  && breaker_events_match (q_blsn q) None evs
+  && verdicts_ok q o.
 
 (* ---- C02: a retry policy that is the whole stack runs the function at most maxRetries+1 times,
         and ExceededError wraps the last outcome *)
